@@ -27,6 +27,34 @@ NOTES = ("Every check: python3 run.py Cxx --tier quick|thorough. Lean theorems a
 NOT_APPLICABLE = {}
 
 CHECKS = {
+    "C03": {
+        "text": "Lean model of goroutines.js ($send/$recv/$close/$select, $go/$schedule/$runScheduled/$block, counters, timers) as "
+                "step : State -> Event -> State x Obs with every nondeterministic choice (random pick among ready select cases, which "
+                "goroutine acts, dequeues, slice breaks, timers) an event argument. Proved by induction over arbitrary event sequences "
+                "(unbounded goroutines, channels, capacities): queue shape, FIFO conservation (received ++ buffer = committed, unbuffered = "
+                "hand-off), the case $select picks is ready for every random value; close and nil-channel semantics in partial form with "
+                "proved counterexamples for two recorded defects. Tied to the real prelude under Node with controlled random/clock/timers and "
+                "compiler-shaped scripted goroutines, diffed against the model after every event and judged step by step by an independent "
+                "Go-channel transition system; compiled programs vs the model's prediction / allowed outcome set and native Go.",
+        "note": "no_lost_wakeup, awake_count (deadlock report) and refines_go are stated and their executable forms evaluated on every visited "
+                "state (millions of steps, exhaustive small configurations in the thorough tier) but NOT proved; select_default and progress are "
+                "not stated. Known findings: $close throws in the closer when a select-send entry is queued; close(nil) does not panic.",
+        "technique": "Lean 4 proof (invariants by induction over event lists) + differential correspondence (real JS runtime vs Lean driver vs Go-channel LTS) + compiled programs",
+    },
+    "C09": {
+        "text": "Lean model of types.js (canonicalising caches with their key strings, $methodSet incl. seen-by-string and first-wins, "
+                "$assertType memo as state, $interfaceIsEqual) against a Go-spec model (type identity, method sets with promotion by depth and "
+                "ambiguity exclusion, pointer-receiver rules, interface satisfaction). Proved: named types never share an object; canonical "
+                "identity for arrays/chans/funcs/maps/pointers/slices at full strength and for structs under decidable hypotheses; "
+                "assertion sequences equal Go's under StringsInjective; interface equality incl. the uncomparable panic under "
+                "ComparableFlagsOk; 13 proved counterexamples for the recorded defects. Tied three-way (real prelude under Node / model / "
+                "spec) on generated type families probing every (dynamic type, interface) pair in shuffled orders, pinned emission format, "
+                "and generated Go programs against native Go.",
+        "note": "The general method-set theorem with embedding/shadowing is stated (methodset_correct_clean) but only the depth-0 case is proved; "
+                "dispatch is covered by programs only. 15 known findings (ambiguous promotion, memo/seen keyed by type string, struct key "
+                "omissions, JS-reserved method names, comparable flag, unexported name collisions, defined pointer types, ...).",
+        "technique": "Lean 4 proof (cache invariants, memo soundness over assertion sequences) + three-way differential correspondence + generated programs vs native Go",
+    },
     "C05": {
         "text": "Lean theorems over a transcription of the work-list selector (dce/selector.go as driven by WriteProgramCode): for all "
                 "declaration lists, inclusion orders and pending-list disciplines the selection is exactly the least set containing the roots "
